@@ -1559,6 +1559,11 @@ class ClassicChannel(utils.EventEmitter):
         )
         self._abort_connection_result()
         self._change_state(self.State.CLOSED)
+        if self.disconnection_result:
+            # Our own disconnection request crossed the peer's: the channel is closed
+            if not self.disconnection_result.done():
+                self.disconnection_result.set_result(None)
+            self.disconnection_result = None
         self.emit(self.EVENT_CLOSE)
         self.manager.on_channel_closed(self)
 
